@@ -41,14 +41,13 @@ Proof.
   apply update_same. unfold get in G. now apply map_nth_error.
 Qed.
 
-(* a state whose frozen objects are frozen objects of st with (at most) the same cache entries *)
+(* a state whose frozen objects' cache entries are cache entries of frozen objects of st *)
 Lemma valid_mono : forall st st', valid st -> thaw st' = thaw st ->
-  (forall o ob', get st' o = Some ob' -> ofrozen ob' = true ->
-     exists ob, get st o = Some ob /\ ofrozen ob = true /\
-                forall k v, lookup k (ocache ob') = Some v -> lookup k (ocache ob) = Some v) ->
+  (forall o ob' k v, get st' o = Some ob' -> ofrozen ob' = true -> lookup k (ocache ob') = Some v ->
+     exists ob, get st o = Some ob /\ ofrozen ob = true /\ lookup k (ocache ob) = Some v) ->
   valid st'.
 Proof.
-  intros st st' V T H o ob' k v G F L. destruct (H o ob' G F) as (ob & G0 & F0 & Hl).
+  intros st st' V T H o ob' k v G F L. destruct (H o ob' k v G F L) as (ob & G0 & F0 & Hl).
   rewrite (pure_key_thaw_eq st' st) by exact T. apply (V o ob k v); auto.
 Qed.
 
@@ -57,12 +56,12 @@ Proof.
   intros o st [V U]. unfold modify. destruct (get st o) as [ob|] eqn:G; simpl; [|split; [split|]; auto].
   assert (T : thaw (put st o (with_frozen ob true)) = thaw st) by (now apply (thaw_put st o ob)).
   split; [split|exact T].
-  - apply (valid_mono st); auto. intros o' ob' G' F'.
+  - apply (valid_mono st); auto. intros o' ob' k v G' F' L.
     destruct (Nat.eq_dec o o') as [->|Hne].
-    + rewrite (get_put_eq _ _ _ _ G) in G'. injection G' as <-. simpl.
+    + rewrite (get_put_eq _ _ _ _ G) in G'. injection G' as <-. simpl in L.
       destruct (ofrozen ob) eqn:Fz.
       * exists ob. auto.
-      * rewrite (U o' ob G Fz). intros k v L. discriminate.
+      * rewrite (U o' ob G Fz) in L. discriminate.
     + rewrite get_put_neq in G' by auto. exists ob'. auto.
   - intros o' ob' G' F'. destruct (Nat.eq_dec o o') as [->|Hne].
     + rewrite (get_put_eq _ _ _ _ G) in G'. injection G' as <-. simpl in F'. discriminate.
@@ -90,7 +89,7 @@ Proof.
   set (st1 := put st o (with_frozen ob false)).
   assert (T1 : thaw st1 = thaw st) by (now apply (thaw_put st o ob)).
   assert (V1 : valid st1).
-  { apply (valid_mono st); auto. intros o' ob' G' F'. destruct (Nat.eq_dec o o') as [->|Hne].
+  { apply (valid_mono st); auto. intros o' ob' k v G' F' L. destruct (Nat.eq_dec o o') as [->|Hne].
     - unfold st1 in G'. rewrite (get_put_eq _ _ _ _ G) in G'. injection G' as <-. simpl in F'. discriminate.
     - unfold st1 in G'. rewrite get_put_neq in G' by auto. exists ob'. auto. }
   assert (E1 : empty_except (o :: S) st1).
@@ -109,9 +108,8 @@ Proof.
   destruct (get st2 o) as [ob2|] eqn:G2.
   - assert (T3 : thaw (put st2 o (with_cache ob2 [])) = thaw st2) by (now apply (thaw_put st2 o ob2)).
     split; [|split; [|congruence]].
-    + apply (valid_mono st2); auto. intros o' ob' G' F'. destruct (Nat.eq_dec o o') as [->|Hne].
-      * rewrite (get_put_eq _ _ _ _ G2) in G'. injection G' as <-. simpl in *. exists ob2. repeat split; auto.
-        intros k v L. discriminate.
+    + apply (valid_mono st2); auto. intros o' ob' k v G' F' L. destruct (Nat.eq_dec o o') as [->|Hne].
+      * rewrite (get_put_eq _ _ _ _ G2) in G'. injection G' as <-. simpl in L. discriminate.
       * rewrite get_put_neq in G' by auto. exists ob'. auto.
     + intros o' ob' G' F'. destruct (Nat.eq_dec o o') as [->|Hne].
       * rewrite (get_put_eq _ _ _ _ G2) in G'. injection G' as <-. now right.
@@ -167,6 +165,8 @@ Proof.
     apply IH. now apply (agree_child st st' o ob k c).
   - now rewrite (agree_none _ _ _ A G).
 Qed.
+
+Local Opaque walk_val.
 
 Lemma direct_items_local : forall st st' d o ob, agree st st' o -> get st o = Some ob ->
   forall l, (forall kv, In kv l -> In kv (oattrs ob)) -> direct_items st' d l = direct_items st d l.
